@@ -17,7 +17,7 @@ import GMGProofs.Lemmas.Concrete15
   hypotheses speak about the inputs only (and the coarse `tiny` test).
 -/
 namespace C10i
-open Cycle Concrete Stencil Cache Build GridGen GridGenL Grid
+open MGCycle Concrete Stencil Cache Build GridGen GridGenL Grid
 
 section AnyScalar
 variable {α : Type} [Scalar α]
